@@ -661,11 +661,12 @@ BaseLenFrom(c, n) ==
 BaseLen(c) == BaseLenFrom(c, 0)     \* 0: the base part is not complete yet (no family completes at <<>>)
 
 TokenMenu == <<
-  [k |-> "Comma", v |-> ""], [k |-> "Pipe", v |-> ""], [k |-> "LParen", v |-> ""], [k |-> "RParen", v |-> ""],
+  [k |-> "Comma", v |-> ""], [k |-> "Dot", v |-> ""], [k |-> "RParen", v |-> ""], [k |-> "Pipe", v |-> ""],
+  [k |-> "LParen", v |-> ""], [k |-> "Identifier", v |-> "x"], [k |-> "Raw", v |-> "!"], [k |-> "By", v |-> ""],
   [k |-> "LBracket", v |-> ""], [k |-> "RBracket", v |-> ""], [k |-> "Plus", v |-> ""], [k |-> "Eq", v |-> ""],
-  [k |-> "Assign", v |-> ""], [k |-> "And", v |-> ""], [k |-> "By", v |-> ""], [k |-> "In", v |-> ""],
-  [k |-> "Identifier", v |-> "x"], [k |-> "Number", v |-> "1"], [k |-> "String", v |-> "s"], [k |-> "Semi", v |-> ""],
-  [k |-> "Dot", v |-> ""], [k |-> "Raw", v |-> "!"], [k |-> "Raw", v |-> "'abc"], [k |-> "Raw", v |-> "0x"],
+  [k |-> "Assign", v |-> ""], [k |-> "And", v |-> ""], [k |-> "In", v |-> ""],
+  [k |-> "Number", v |-> "1"], [k |-> "String", v |-> "s"], [k |-> "Semi", v |-> ""],
+  [k |-> "Raw", v |-> "'abc"], [k |-> "Raw", v |-> "0x"],
   [k |-> "Raw", v |-> "@"], [k |-> "Raw", v |-> "`q"] >>
 
 EditKinds == {"del", "dup", "swap", "trunc", "ins"}
